@@ -1,10 +1,24 @@
-"""Engine-side driver for C15: runs a program (MiniJS AST or corpus source) and exports the slot layouts the
-compiler chose (locals / cell_vars / free_vars of every compiled function).  `batch` runs several programs
-one after the other in the same process, in the order given by the case."""
+"""Engine-side driver for C15: runs a program (MiniJS AST, source text given by the specification, or a corpus script)
+and exports the slot layouts the compiler chose (locals / cell_vars / free_vars of every compiled function).
+
+Cases:
+  {"id", "prog" | "src", "mode": "ast" | "text" | "corpus", "ml"}      one program, fresh context, clock starts at 0
+  {"id", "table": {key: item}}                                           programs the following cases refer to by key
+  {"id", "items": [item | key ...], "clks": ["b2b" | "gap" ...], "fork": bool, "lay": bool (export layouts, default yes)}
+        a history: the items one after the other, each on a fresh context, the whole list once per entry of `clks`,
+        in one process.  The virtual clock is never set back; "b2b": it only moves while a program runs, "gap": before
+        every evaluation it is advanced by more than any context's time limit.  fork: the history runs in a child
+        forked from this (pristine) process, so nothing was evaluated before its first item.
+The driver computes no expectation.
+"""
+import os, json, traceback
 from harness import render as R
-from checks.c05_driver import run_source, proj
+from checks.c05_driver import proj, LOG_CAP, TIME_LIMIT_STEPS
 
 PRELUDE = "console.log = __hostlog;"
+CORPUS_TIME_LIMIT = 200000
+GAP = 1000000.0                 # virtual seconds between two evaluations of a "gap" round: beyond every time limit used here
+TABLE = {}
 
 
 def layouts(src):
@@ -31,25 +45,40 @@ def layouts(src):
     return out
 
 
-def run_one(item, api):
-    if "prog" in item:
-        src, _ = R.render(item["prog"])
-        log, out = run_source(api, src, wall=item.get("wall", 30.0))
-    else:
-        src = item["src"]
-        log, out = run_corpus(api, src, wall=item.get("wall", 60.0))
-    return {"id": item["id"], "log": log, "out": out, "lay": layouts(src)}
+def run_source(api, src, memory_limit=None, wall=30.0, keep_clock=False):
+    """a rendered MiniJS program or a text program: host function `log`, time limit in virtual seconds (= instructions)"""
+    ctx = api.new_context(time_limit=TIME_LIMIT_STEPS, memory_limit=memory_limit or None)
+    log = []
+
+    def host_log(*a):
+        if len(log) >= LOG_CAP:
+            raise api.HarnessHang("log cap")
+        log.append(proj(a[0]) if a else {"t": "undef"})
+
+    ctx.set("log", host_log)
+    box = ctx._raw_box
+    del box[:]
+    out = api.run(lambda: ctx.eval(src), wall=wall, cap=400000, tick=1.0, keep_clock=keep_clock)
+    if out["o"] == "value":
+        out.pop("pv", None)
+        if not box:
+            raise RuntimeError("raw-value tap did not fire")
+        out["v"] = proj(box[0])
+    if out["o"] == "jserror":
+        out["msg"] = str(out.get("msg", ""))[:200]
+    out.pop("steps", None)
+    return log, out
 
 
-def run_corpus(api, src, wall=60.0):
+def run_corpus(api, src, wall=60.0, keep_clock=False):
     """corpus scripts define their own helpers; console.log and the script-visible string `log_str` are the observations"""
-    ctx = api.new_context(time_limit=200000)
+    ctx = api.new_context(time_limit=CORPUS_TIME_LIMIT)
     log = []
     ctx.set("__hostlog", lambda *a: (log.append([proj(x) for x in a][0] if a else {"t": "undef"}), None)[1])
     ctx.eval(PRELUDE)
     box = ctx._raw_box
     del box[:]
-    out = api.run(lambda: ctx.eval(src), wall=wall, cap=3000000, tick=1.0)
+    out = api.run(lambda: ctx.eval(src), wall=wall, cap=3000000, tick=1.0, keep_clock=keep_clock)
     if out["o"] == "value":
         out.pop("pv", None)
         out["v"] = proj(box[0]) if box else {"t": "host", "d": "no value"}
@@ -65,12 +94,66 @@ def run_corpus(api, src, wall=60.0):
     return log[:300], out
 
 
-def driver(case, api):
-    if "items" in case:                         # a batch: same process, given order
-        res = []
-        for item in case["items"]:
-            r = run_one(item, api)
-            r["id"] = "%s:%s" % (case["id"], item["id"])
+def run_one(item, api, keep_clock=False, want_lay=True):
+    mode = item.get("mode") or ("ast" if "prog" in item else "corpus")
+    if mode == "corpus":
+        src = item["src"]
+        log, out = run_corpus(api, src, wall=item.get("wall", 60.0), keep_clock=keep_clock)
+    else:
+        src = R.render(item["prog"])[0] if mode == "ast" else item["src"]
+        log, out = run_source(api, src, memory_limit=item.get("ml"), wall=item.get("wall", 30.0), keep_clock=keep_clock)
+    return {"id": item["id"], "log": log, "out": out, "hl": bool(want_lay), "lay": layouts(src) if want_lay else []}
+
+
+def run_history(case, api):
+    res = []
+    for rnd, clk in enumerate(case["clks"], 1):
+        for idx, it in enumerate(case["items"], 1):
+            item = TABLE[it] if isinstance(it, str) else it
+            if clk == "gap":
+                api.vclock.now += GAP           # time passes while nothing runs
+            r = run_one(item, api, keep_clock=True, want_lay=bool(case.get("lay", True)))
+            r.update({"hid": case["id"], "round": rnd, "idx": idx, "clk": clk, "item": item["id"]})
+            r["id"] = "%s|r%d|%d|%s" % (case["id"], rnd, idx, item["id"])
             res.append(r)
-        return res
+    return res
+
+
+def forked(fn):
+    """run fn() in a child forked from this process and return its (JSON) result"""
+    rfd, wfd = os.pipe()
+    pid = os.fork()
+    if pid == 0:
+        try:
+            os.close(rfd)
+            try:
+                data = json.dumps(fn())
+            except BaseException:                                   # noqa: BLE001 - reported to the parent as machinery
+                data = json.dumps({"machinery": traceback.format_exc()[-1500:]})
+            with os.fdopen(wfd, "w") as f:
+                f.write(data)
+        finally:
+            os._exit(0)
+    os.close(wfd)
+    with os.fdopen(rfd) as f:
+        data = f.read()
+    os.waitpid(pid, 0)
+    if not data:
+        raise RuntimeError("forked history produced nothing")
+    out = json.loads(data)
+    if isinstance(out, dict) and "machinery" in out:
+        raise RuntimeError("forked history failed: " + out["machinery"])
+    return out
+
+
+def driver(case, api):
+    if "table" in case:
+        TABLE.update(case["table"])
+        return []
+    if "items" in case:                         # a history: same process, given order
+        if "clks" not in case:
+            case = dict(case, clks=["b2b"])
+        if case.get("fork"):
+            return forked(lambda: run_history(case, api))
+        return run_history(case, api)
     return run_one(case, api)
